@@ -169,14 +169,30 @@ func invoke(cs callSpec) *attempt {
 	case <-done:
 		a.Returned = true
 	case <-wd.C:
-		a.Goroutine, a.GoroutineState, a.Parked = goroutineBlock(gid.Load())
-		cs.release()
-		select {
-		case <-done:
-			a.ReturnedAfterRelease = true
-		case <-time.After(c13Watchdog):
+		block, state, parked := goroutineBlock(gid.Load())
+		if !parked {
+			// Not parked in the transport: the call is running, already gone
+			// (it came back together with the watchdog, e.g. after the whole
+			// machine was frozen and every timer fired at once) or starved.
+			// Give it one more watchdog period without touching the peer; the
+			// min-of-3 rule then deals with its elapsed time.
+			select {
+			case <-done:
+				a.Returned = true
+			case <-time.After(cs.c.T() + c13Watchdog):
+				block, state, parked = goroutineBlock(gid.Load())
+			}
 		}
-		return a
+		if !a.Returned {
+			a.Goroutine, a.GoroutineState, a.Parked = block, state, parked
+			cs.release()
+			select {
+			case <-done:
+				a.ReturnedAfterRelease = true
+			case <-time.After(c13Watchdog):
+			}
+			return a
+		}
 	}
 	a.RegAfterPoll = a.RegAtReturn
 	for dl := time.Now().Add(c13RegPoll); a.RegAfterPoll > 0 && time.Now().Before(dl); {
@@ -316,7 +332,11 @@ func attemptAdapter(c c13case, body []byte) *attempt {
 		case c.Pattern == "blockwrite:5T":
 			select {
 			case <-writing:
-				sleepOr(c.holdDelay(), stop)
+				if sleepOr(c.holdDelay(), stop) {
+					// the stall is over: from here on a call that has not
+					// looked yet may legally see the completed send
+					flags.markAnswered()
+				}
 				openW()
 			case <-stop:
 			}
